@@ -14,6 +14,7 @@ CONSTANTS G,           \* grammar: "G12" (NV variables), "G3s"/"G3v"/"G1x" three
           NeedNot      \* TRUE: export only trees that contain a negation (C03)
 
 AllLeaves == CASE G = "G12" -> (IF NV = 1 THEN LeavesG1 ELSE LeavesG2(NV))
+               [] G = "G1s" -> LeavesG1                    \* one variable, an expression on it selected instead of it
                [] G = "G4"  -> LeavesG2(2)
                \* a small vocabulary that mixes the pairs of three variables (partial bindings meet in and_/or_ trees)
                [] G = "G3v" -> << PredC("p_lt", <<At(V(2), "m"), At(V(3), "n")>>, "fn"), InC(V(2), At(V(1), "refs"), "contains"),
@@ -30,6 +31,7 @@ AllLeaves == CASE G = "G12" -> (IF NV = 1 THEN LeavesG1 ELSE LeavesG2(NV))
                                   CmpC("ge", At(V(2), "m"), At(V(1), "m")), CmpC("ne", At(V(1), "m"), At(V(2), "n")) >>
                [] G = "G1x" -> Cat([i \in 1..NV |-> Some(CoreLeaves(V(i)), 2)])    \* independent single-variable leaves
                [] G = "G3"  -> LeavesG3
+               [] G = "G3y" -> LeavesG3y \o Some(LeavesG3, 4)
                [] G = "G6"  -> LeavesG6
                [] G = "G7i" -> LeavesG7("int")
                [] G = "G7o" -> LeavesG7("obj")
@@ -44,6 +46,9 @@ Selections ==
     [] G = "G3s" -> << Sel("set_of", <<V(1), V(2), V(3)>>), Sel("set_of", <<V(1), V(2)>>), Sel("set_of", <<V(2), V(3)>>),
                        Sel("entity", <<V(2)>>) >>
     [] G = "G2n" -> << Sel("entity", <<V(1)>>), Sel("set_of", <<V(1), V(2)>>), Sel("entity", <<V(2)>>) >>
+    \* the selected value may be any value, the falsy members of its sort and None included
+    [] G = "G1s" -> << Sel("entity", <<At(V(1), "o")>>), Sel("entity", <<At(V(1), "n")>>), Sel("set_of", <<At(V(1), "o")>>),
+                       Sel("entity", <<At(V(1), "s")>>), Sel("set_of", <<At(V(1), "o"), V(1)>>) >>
     [] G = "G3v" -> << Sel("set_of", <<V(3), V(1)>>), Sel("set_of", <<V(1), V(2), V(3)>>), Sel("entity", <<V(2)>>) >>
     [] G = "G12" ->
        (IF NV = 1 THEN << Sel("entity", <<V(1)>>) >>
@@ -53,7 +58,7 @@ Selections ==
              Sel("set_of", <<At(V(1), "m"), V(2), V(1)>>) >>
         ELSE << Sel("set_of", <<V(1), V(2), V(3)>>), Sel("set_of", <<V(3), V(1)>>), Sel("entity", <<V(2)>>),
                 Sel("set_of", <<V(2), V(3), V(1)>>) >>)
-    [] G = "G3" -> << [desc |-> "entity", sel |-> <<V(1)>>, flats |-> <<>>, bound |-> <<2>>] >>
+    [] G \in {"G3", "G3y"} -> << [desc |-> "entity", sel |-> <<V(1)>>, flats |-> <<>>, bound |-> <<2>>] >>
     [] G = "G4" -> [j \in 1..Len(Heads) |-> [desc |-> "entity", sel |-> <<>>, flats |-> <<>>, bound |-> <<>>, head |-> Heads[j]]]
     [] G = "G6" -> << Sel("set_of", <<V(1), V(2)>>), Sel("entity", <<V(1)>>), Sel("set_of", <<V(2), V(1)>>) >>
     [] G \in {"G7i", "G7o"} ->
@@ -88,14 +93,14 @@ ApplyBin(kind, form) ==
   /\ UNCHANGED done
 \* for_all(u, c): quantify the tree on top of the stack; afterwards only conjunction with conditions on the
 \* free variable is offered (what the property speaks about)
-ApplyForAll(ue) == /\ G = "G3" /\ done = <<>> /\ Len(stack) = 1 /\ ~HasForAll(Top)
+ApplyForAll(ue) == /\ G \in {"G3", "G3y"} /\ done = <<>> /\ Len(stack) = 1 /\ ~HasForAll(Top)
                    /\ stack' = <<ForAllC(<<2>>, ue, Top)>> /\ UNCHANGED done
-PushOuter(j, side) == /\ G = "G3" /\ done = <<>> /\ Len(stack) = 1 /\ Top.k = "forall"
+PushOuter(j, side) == /\ G \in {"G3", "G3y"} /\ done = <<>> /\ Len(stack) = 1 /\ Top.k = "forall"
                       /\ stack' = << IF side = "l" THEN AndC(OuterG3[j], Top, "fn") ELSE AndC(Top, OuterG3[j], "fn") >>
                       /\ UNCHANGED done
 Finish(s) == /\ done = <<>> /\ Len(stack) = 1
              /\ (NeedNot => HasNot(Top))
-             /\ (G = "G3" => HasForAll(Top))
+             /\ (G \in {"G3", "G3y"} => HasForAll(Top))
              /\ done' = <<IF G = "G4"
                            THEN [desc |-> "entity", sel |-> <<>>, flats |-> <<>>, bound |-> <<>>, cond |-> Top,
                                  head |-> Selections[s].head]
@@ -105,14 +110,14 @@ Finish(s) == /\ done = <<>> /\ Len(stack) = 1
              /\ stack' = <<>>
 
 \* a query without any condition: entity(x) / set_of([...]) alone
-FinishBare(s) == /\ G \in {"G12", "G7i", "G7o"} /\ ~NeedNot
+FinishBare(s) == /\ G \in {"G12", "G1s", "G7i", "G7o"} /\ ~NeedNot
                  /\ done = <<>> /\ stack = <<>>
                  /\ done' = <<[desc |-> Selections[s].desc, sel |-> Selections[s].sel, flats |-> Selections[s].flats,
                                bound |-> Selections[s].bound, cond |-> TrueC, boundflats |-> <<>>]>>
                  /\ stack' = <<>>
 
-Next == \/ \E j \in 1..Len(Leaves) : PushLeaf(j) /\ (G = "G3" => ~(stack # <<>> /\ HasForAll(Top)))
-        \/ ApplyNot("fn") /\ (G = "G3" => ~HasForAll(Top))
+Next == \/ \E j \in 1..Len(Leaves) : PushLeaf(j) /\ (G \in {"G3", "G3y"} => ~(stack # <<>> /\ HasForAll(Top)))
+        \/ ApplyNot("fn") /\ (G \in {"G3", "G3y"} => ~HasForAll(Top))
         \/ \E kind \in {"and", "or"} : ApplyBin(kind, "fn")
         \/ \E ue \in 1..4 : ApplyForAll(CASE ue = 1 -> V(2)
                                             [] ue = 2 -> At(V(2), "n")
